@@ -65,6 +65,10 @@ impl Encryptor for Aes256GcmEncryptor {
     }
 
     fn decrypt(&self, data: &[u8]) -> Result<Vec<u8>, IggyError> {
+        // 12 bytes of nonce come first, anything shorter cannot be a ciphertext.
+        if data.len() < 12 {
+            return Err(IggyError::CannotDecryptData);
+        }
         let nonce = GenericArray::from_slice(&data[0..12]);
         let payload = self.cipher.decrypt(nonce, &data[12..]);
         if payload.is_err() {
